@@ -159,6 +159,13 @@ theorem one_owner_reachable (cfg : Cfg) (hfix : cfg.Fixed) (s : State) (h : Reac
     OneOwner s :=
   (reachable_inv cfg hfix s h).1
 
+/-- all step rules at once, for every state a validating list can reach (the side condition
+`InvitesSane` of the step theorems is an invariant of reachable states) -/
+theorem rules_in_reachable_states (cfg : Cfg) (hfix : cfg.Fixed) (s s' : State) (hr : Reachable cfg s)
+    (author rec : Nat) (c : Content) (hc : c.atomic = true)
+    (h : applyContent cfg true s author rec c = .ok s') : StepRules s author s' :=
+  step_rules cfg hfix s s' author rec c hc (reachable_inv cfg hfix s hr).2 h
+
 /-- no record of anybody else touches the owner's permission -/
 theorem owner_untouchable_record (cfg : Cfg) (hfix : cfg.Fixed) (s s' : State) (rec : Nat) (r : Record)
     (hs : InvitesSane s) (h : applyRecord cfg true s rec r = .ok s')
